@@ -15,7 +15,10 @@ from mdsa.astutil import call_attr, call_recv, local_calls, norm, store_targets
 from mdsa.cfg import walk_local
 from mdsa.loader import AnalysisError
 
+from mdsa import match as M
+
 from .common import Ctx, local_defs, node_of
+from .sem import F
 
 I = "container.interface"
 MM = f"{I}.MetadorMeta"
@@ -113,65 +116,90 @@ def r1_key_kinds(P, rep, ctx):
                       message=f"`{norm(node)[:80]}` uses a {('PluginRef' if k == 'ref' else k)} as key of _objs (declared Dict[str, ...], keyed by schema name elsewhere): a held node.meta object does not find the object it just stored and accepts a second one for the same schema")
 
 
+def unpack_names(f: "F", call_pattern: str):
+    """names bound by `a, b = <call matching pattern>` (None if not found)"""
+    for n in f.g.nodes:
+        st = n.stmt
+        if n.kind == "stmt" and isinstance(st, ast.Assign) and len(st.targets) == 1 and isinstance(st.targets[0], ast.Tuple) and M.match(call_pattern, st.value) is not None:
+            return [norm(e) for e in st.targets[0].elts]
+    return None
+
+
 def r2_set_discipline(P, rep, ctx):
     fi = P.func(f"{MM}.__setitem__")
-    g = ctx.cfg(fi)
-
-    def nodes_calling(name, recv=None):
-        return [n.idx for n in g.nodes if any(call_attr(c) == name and (recv is None or norm(call_recv(c)) == recv) for c in g.calls(n.idx))]
-
-    guard = nodes_calling("_guard_acl")
-    exists = [t.idx for t in g.nodes if t.kind == "test" and norm(t.exprs[0]) in ("self._get_raw(schema_name)", "self._get_raw(schema_name) is not None", "schema_name in self._objs")]
-    req = nodes_calling("_require_schema")
-    parse = nodes_calling("_parse_obj")
-    setraw = nodes_calling("_set_raw")
+    f = F(ctx, fi)
+    g = f.g
+    names = unpack_names(f, f"plugin_args({fi.params[1]})")
+    if names is None:
+        raise AnalysisError("C07.R2: `name, version = plugin_args(schema)` not found in __setitem__")
+    sn, sv = names[0], names[1]
+    guard = f.calls("self._node._guard_acl(NodeAcl.read_only)", "self._node._guard_acl(NodeAcl.read_only, ___)")
+    exists = f.tests(f"self._get_raw({sn})", f"self._get_raw({sn}) is not None", f"{sn} in self._objs", f"self._objs.get({sn})", f"self._objs.get({sn}) is not None")
+    req = f.calls(f"self._require_schema({sn}, {sv})")
+    parses = f.call_sites(f"self._parse_obj(__c, {fi.params[2]})")
+    parse = [i for i, c, b in parses if f.x(b["__c"]) == f"self._require_schema({sn}, {sv})"]
+    sets = f.call_sites("self._set_raw(__r, __o)")
+    setraw = [i for i, c, b in sets]
     if not setraw:
         raise AnalysisError("C07.R2: _set_raw call not found in __setitem__")
-    seq = [("read_only guard", guard), ("existing-object test", exists), ("schema lookup (_require_schema)", req), ("validation (_parse_obj)", parse), ("raw store (_set_raw)", setraw)]
+    seq = [("read_only guard", guard), ("existing-object test", f.test_nodes(exists)), ("schema lookup (_require_schema)", req), ("validation (_parse_obj)", parse), ("raw store (_set_raw)", setraw)]
     for (an, a), (bn, b) in zip(seq, seq[1:]):
-        ok = bool(a) and bool(b) and all(g.every_path_passes(a, x) for x in b)
+        ok = bool(a) and bool(b) and f.all_hit_before(b, nodes=a)
         rep.check(ok, "C07.R2", fi.qual, f"{an} precedes {bn} on every path", fi.loc(), construct=f"{an} before {bn}", message=f"MetadorMeta.__setitem__: {bn} is reachable without {an}")
-    for t in exists:
-        ts = [b for b, l in g.succ[t] if l == "T"]
-        rep.check(g.exit not in g.reach(ts) and not (set(setraw) & g.reach(ts)) and any(isinstance(g.nodes[x].stmt, ast.Raise) and "ValueError" in norm(g.nodes[x].stmt) for x in g.reach(ts) | set(ts)), "C07.R2", fi.qual,
-                  "an existing object of the schema is refused with ValueError", fi.loc(), construct="existing-object refusal", message="__setitem__ does not raise ValueError when an object of that schema already exists at the node")
-    for s in setraw:
-        for c in g.calls(s):
-            if call_attr(c) == "_set_raw":
-                d = local_defs(fi)
-                a1 = norm(c.args[1]) if len(c.args) > 1 else ""
-                okv = any(v is not None and call_attr(v) == "_parse_obj" for k, v in d.get(a1, []))
-                rep.check(okv and norm(c.args[0]) == "schema_class.Plugin.ref()", "C07.R2", fi.qual, "the *validated* object is stored under the installed schema's own reference", fi.loc(c), construct=norm(c),
-                          message=f"_set_raw is given {norm(c)}: not the validated object / not the reference of the installed schema class")
-    fi = P.func(f"{MM}._set_raw")
-    t = norm(fi.node)
-    rep.check("self._mc.__wrapped__[obj_path] = bytes(obj)" in t, "C07.R2", fi.qual, "the serialised bytes of the object are stored", fi.loc(), construct="_set_raw store", message="_set_raw does not store bytes(obj)")
-    rep.check("{_ep_name_for(schema_ref)}={str(obj_uuid)}" in t and "self._base_dir" in t, "C07.R2", fi.qual, "object path encodes schema reference and uuid below the node's metadata dir", fi.loc(), construct="object path", message="_set_raw does not name the object <base_dir>/<ep_name>=<uuid>")
-    fi = P.func(f"{MM}._require_schema")
-    g = ctx.cfg(fi)
-    tests = [t for t in g.nodes if t.kind == "test" and norm(t.exprs[0]) == "schema_class.Plugin.auxiliary"]
-    ok = bool(tests) and all(g.exit not in g.reach([b for b, l in g.succ[t.idx] if l == "T"]) for t in tests) and g.every_path_passes([t.idx for t in tests], g.exit)
-    rep.check(ok, "C07.R2", fi.qual, "auxiliary schemas are refused (TypeError)", fi.loc(), construct="auxiliary refusal", message="_require_schema does not raise for auxiliary schemas")
-    rep.check("schemas._get_unsafe(schema_name, schema_ver)" in norm(fi.node), "C07.R2", fi.qual, "unknown schemas raise KeyError (via _get_unsafe)", fi.loc(), construct="schema lookup", message="_require_schema does not look the schema up with schemas._get_unsafe (KeyError for unknown)")
-    fi = P.func(f"{MM}._parse_obj")
-    t = norm(fi.node)
-    rep.check("if isinstance(obj, schema): return obj" in t.replace("\n", " ") or ("isinstance(obj, schema)" in t and "schema.parse_obj" in t and "schema.parse_raw" in t), "C07.R2", fi.qual, "objects are validated by the requested schema unless already an instance", fi.loc(), construct="_parse_obj", message="_parse_obj does not validate with the requested schema")
+    raises_ve = any(isinstance(g.nodes[x].stmt, ast.Raise) and "ValueError" in f.x(g.nodes[x].stmt.exc) for x in g.reach(f.heads(exists)) | set(f.heads(exists))) if exists else False
+    rep.check(f.refuses(exists) and not f.reaches(exists, setraw) and raises_ve, "C07.R2", fi.qual,
+              "an existing object of the schema is refused with ValueError", fi.loc(), construct="existing-object refusal", message="__setitem__ does not raise ValueError when an object of that schema already exists at the node")
+    for i, c, b in sets:
+        okv = M.match(f"self._parse_obj(__c, {fi.params[2]})", f.xe_at(i, b["__o"])) is not None and f.x_at(i, b["__r"]) == f"self._require_schema({sn}, {sv}).Plugin.ref()"
+        rep.check(okv, "C07.R2", fi.qual, "the *validated* object is stored under the installed schema's own reference", fi.loc(c), construct="stored object and reference",
+                  message=f"_set_raw is given {norm(c)}: not the validated object / not the reference of the installed schema class")
+    sfi = P.func(f"{MM}._set_raw")
+    sf = F(ctx, sfi)
+    st = [(i, v, b) for i, v, b in sf.stores("self._mc.__wrapped__[__p]")]
+    rep.check(bool(st) and all(sf.x(v) == f"bytes({sfi.params[2]})" for i, v, b in st), "C07.R2", sfi.qual, "the serialised bytes of the object are stored", sfi.loc(), construct="_set_raw store", message="_set_raw does not store bytes(obj)")
+    okp = bool(st) and all(isinstance(sf.xe(b["__p"]), ast.JoinedStr) and sf.x(b["__p"]).startswith("f'{self._base_dir}/{_ep_name_for(" + sfi.params[1] + ")}={") and "fresh_uuid()" in sf.x(b["__p"]) for i, v, b in st)
+    rep.check(okp, "C07.R2", sfi.qual, "object path encodes schema reference and uuid below the node's metadata dir", sfi.loc(), construct="object path", message="_set_raw does not name the object <base_dir>/<ep_name>=<uuid>")
+    rfi = P.func(f"{MM}._require_schema")
+    rf = F(ctx, rfi)
+    a0, a1 = rfi.params[0], rfi.params[1]
+    aux = rf.tests(f"schemas._get_unsafe({a0}, {a1}).Plugin.auxiliary")
+    rep.check(rf.refuses(aux) and rf.hit_before(rf.g.exit, nodes=rf.test_nodes(aux)), "C07.R2", rfi.qual, "auxiliary schemas are refused (TypeError)", rfi.loc(), construct="auxiliary refusal", message="_require_schema does not raise for auxiliary schemas")
+    rets = [rf.x(v) for _, v in rf.returns() if v is not None]
+    rep.check(bool(rets) and set(rets) == {f"schemas._get_unsafe({a0}, {a1})"}, "C07.R2", rfi.qual, "unknown schemas raise KeyError (via _get_unsafe)", rfi.loc(), construct="schema lookup", message="_require_schema does not look the schema up with schemas._get_unsafe (KeyError for unknown)")
+    pfi = P.func(f"{MM}._parse_obj")
+    pf = F(ctx, pfi)
+    sc, ob = pfi.params[0], pfi.params[1]
+    rets = [(i, pf.x(v)) for i, v in pf.returns() if v is not None]
+    inst = pf.tests(f"isinstance({ob}, {sc})")
+    # every returned value is the object itself (only when already an instance) or the result of parsing with the requested schema
+    okp = bool(rets) and bool(inst)
+    for i, t in rets:
+        if t == ob:
+            okp = okp and pf.hit_before(i, edges=inst)
+        else:
+            okp = okp and (t.startswith(f"{sc}.parse_raw(") or t.startswith(f"{sc}.parse_obj("))
+    rep.check(okp, "C07.R2", pfi.qual, "objects are validated by the requested schema unless already an instance", pfi.loc(), construct="_parse_obj", message="_parse_obj does not validate with the requested schema")
 
 
-def _role(fi, e: ast.AST) -> str:
-    """requested: built from a version/schema_ver parameter; stored/installed: element of a registry or stored object."""
-    t = norm(e)
-    ds = [v for k, v in local_defs(fi).get(t, []) if v is not None] if isinstance(e, ast.Name) else []
-    for d in ds:
-        dt = norm(d)
-        if "PluginRef(" in dt and ("version=version" in dt or "version=schema_ver" in dt):
+def _role(fi, e: ast.AST, ff=None, site=None) -> str:
+    """requested: a PluginRef built from the function's (name, version) parameters; stored/installed: an element of a
+    registry (loop / comprehension variable over it) or the schema of a stored object."""
+    from mdsa.match import expand
+
+    x = ff.xe_at(site, e) if ff is not None and site is not None else expand(fi.node, e)
+    if isinstance(x, ast.Call) and norm(x.func).endswith("PluginRef"):
+        kws = {k.arg: norm(k.value) for k in x.keywords}
+        if kws.get("version") in fi.params and kws.get("name") in fi.params:
             return "requested"
-    if t in ("ret.schema", "ref"):
-        # `ref` is a loop variable over a registry
-        for x in walk_local(fi.node):
-            if isinstance(x, (ast.comprehension,)) and norm(x.target) == t:
-                return "stored" if "_children" in norm(x.iter) or "refs" in norm(x.iter) else "unknown"
+        return "unknown"
+    t = norm(x)
+    if isinstance(x, ast.Attribute) and x.attr == "schema" and "self._objs.get(" in t:
         return "stored"
+    if isinstance(e, ast.Name):
+        for c in walk_local(fi.node):
+            if isinstance(c, ast.comprehension) and norm(c.target) == e.id:
+                it = norm(expand(fi.node, c.iter))
+                return "stored" if ("_children" in it or "_VERSIONS" in it) else "unknown"
     return "unknown"
 
 
@@ -190,7 +218,9 @@ def r3_supports_direction(P, rep, ctx):
                 roles = SUPPORTS_SITES[owner.qual]
                 if roles is None:
                     continue
-                rr, ar = _role(fi, c.func.value), _role(fi, c.args[0])
+                ff = F(ctx, fi) if isinstance(fi.node, (ast.FunctionDef, ast.AsyncFunctionDef)) else None
+                site = node_of(ff.g, c) if ff is not None else None
+                rr, ar = _role(fi, c.func.value, ff, site), _role(fi, c.args[0], ff, site)
                 want_recv = roles[0] if roles[0] == "requested" else "stored"
                 want_arg = "requested" if roles[1] == "requested" else "stored"
                 ok = rr == want_recv and ar == want_arg
@@ -202,100 +232,178 @@ def r3_supports_direction(P, rep, ctx):
 
 
 def r4_query_scope(P, rep, ctx):
-    q = P.func(f"{I}.MetadorContainerTOC.query")
-    g = ctx.cfg(q)
-    tests = [t for t in g.nodes if t.kind == "test" and norm(t.exprs[0]) == "not schema_name"]
-    trav = [n.idx for n in g.nodes if any(call_attr(c) in ("visititems", "visit") for c in g.calls(n.idx))] + [n.idx for n in g.nodes if n.kind == "test" and ".meta" in norm(n.exprs[0])]
-    ok = bool(tests) and all(g.exit not in g.reach([b for b, l in g.succ[t.idx] if l == "T"]) for t in tests) and all(g.every_path_passes([t.idx for t in tests], x) for x in trav)
-    rep.check(ok, "C07.R4", q.qual, "an empty schema name is refused before any traversal", q.loc(), construct="empty schema refusal", message="query does not raise for an empty schema name before inspecting nodes")
-    start_tests = [norm(t.exprs[0]) for t in g.nodes if t.kind == "test" and "start_node.meta" in norm(t.exprs[0])]
-    coll = q.nested.get("collect_nodes")
+    qfi = P.func(f"{I}.MetadorContainerTOC.query")
+    q = F(ctx, qfi)
+    g = q.g
+    names = unpack_names(q, f"plugin_args({qfi.params[1]}, {qfi.params[2]})")
+    if names is None:
+        raise AnalysisError("C07.R4: `name, version = plugin_args(schema, version)` not found in the container query")
+    sn, sv = names[0], names[1]
+    START = f"node or self._container['/']"
+    empty = q.tests(f"not {sn}", f"{sn} == ''")
+    vis_sites = q.call_sites("__s.visititems(__cb)")
+    visn = [i for i, c, b in vis_sites]
+    member_start = [e for e in q.tests(f"({sn}, {sv}) in __n.meta") if q.x_at(e[0], g.nodes[e[0]].exprs[0]) in (f"({sn}, {sv}) in ({START}).meta", f"({sn}, {sv}) in (self._container['/'] if node is None else node).meta")]
+    trav = visn + q.test_nodes(member_start)
+    ok = q.refuses(empty) and bool(trav) and q.all_hit_before(trav, nodes=q.test_nodes(empty))
+    rep.check(ok, "C07.R4", qfi.qual, "an empty schema name is refused before any traversal", qfi.loc(), construct="empty schema refusal", message="query does not raise for an empty schema name before inspecting nodes")
+    any_member = q.tests(f"({sn}, {sv}) in __n.meta") + q.tests("__k in __n.meta")
+    rep.check(bool(member_start) and {t for t, l in any_member} == {t for t, l in member_start}, "C07.R4", qfi.qual, "start node is tested with the requested (name, version)", qfi.loc(), construct="start node test",
+              message="the start node is not tested with `(schema_name, schema_ver) in start_node.meta`: the requested version is ignored for the start node")
+    coll = qfi.nested.get("collect_nodes") or next(iter(qfi.nested.values()), None)
     if coll is None:
-        raise AnalysisError("C07.R4: collect_nodes not found")
-    ctests = [norm(x.test) for x in walk_local(coll.node) if isinstance(x, ast.If)]
+        raise AnalysisError("C07.R4: collector function of query not found")
+    cf = F(ctx, coll)
     npar = coll.params[1]
-    want = "(schema_name, schema_ver) in {}.meta"
-    rep.check(start_tests == [want.format("start_node")], "C07.R4", q.qual, "start node is tested with the requested (name, version)", q.loc(), construct=f"start node test {start_tests}",
-              message=f"the start node is tested with {start_tests}, not `(schema_name, schema_ver) in start_node.meta`: the requested version is ignored for the start node")
-    rep.check(ctests == [want.format(npar)], "C07.R4", coll.qual, "nodes below are tested with the same (name, version) membership", coll.loc(), construct=f"collector test {ctests}",
-              message=f"the collector tests {ctests}: start node and descendants are matched differently")
-    ys = [n for n in g.nodes if n.kind == "stmt" and any(isinstance(x, ast.Yield) for x in walk_local(n.stmt))]
-    oky = bool(ys) and all(any(g.edge_dominates(t.idx, "T", y.idx) for t in g.nodes if t.kind == "test" and "start_node.meta" in norm(t.exprs[0])) for y in ys)
-    rep.check(oky, "C07.R4", q.qual, "the start node is yielded only if it matches", q.loc(), construct="start node yield", message="query yields the start node without the membership test")
-    gc = ctx.cfg(coll)
-    apps = [n.idx for n in gc.nodes if any(call_attr(c) == "append" and c.args and norm(c.args[0]) == npar for c in gc.calls(n.idx))]
-    ct = [t.idx for t in gc.nodes if t.kind == "test"]
-    rep.check(bool(apps) and bool(ct) and all(gc.every_path_passes(apps, gc.exit, src=t, src_label="T") for t in ct) and all(any(gc.edge_dominates(t, "T", a) for t in ct) for a in apps), "C07.R4", coll.qual, "every matching node below the start node is collected (and only those)", coll.loc(), construct="collector append", message="the query collector does not append exactly the nodes that pass the membership test")
-    gt = [t.idx for t in g.nodes if t.kind == "test" and norm(t.exprs[0]) == "not isinstance(start_node, H5GroupLike)"]
-    visn = [n.idx for n in g.nodes if any(call_attr(c) == "visititems" for c in g.calls(n.idx))]
-    rep.check(bool(gt) and bool(visn) and all(any(g.edge_dominates(t, "F", v) for t in gt) for v in visn) and all(g.every_path_passes(visn, g.exit, src=t, src_label="F") for t in gt), "C07.R4", q.qual, "group-like start nodes are traversed, others are not", q.loc(), construct="traversal condition", message="query does not traverse below a group-like start node (or traverses below a dataset)")
-    ylds = [n.idx for n in g.nodes if n.kind == "stmt" and "yield from iter(ret)" in norm(n.stmt)]
-    rep.check(bool(ylds) and all(g.every_path_passes(visn, y) for y in ylds) and all(g.every_path_passes(ylds, g.exit, src=v) for v in visn), "C07.R4", q.qual, "the collected nodes are yielded after the traversal", q.loc(), construct="yield collected", message="query does not yield the collected nodes")
-    vis = [c for c in local_calls(q.node) if call_attr(c) in ("visititems",)]
-    rep.check(len(vis) == 1 and norm(vis[0].func.value) == "start_node" and norm(vis[0].args[0]) == "collect_nodes", "C07.R4", q.qual, "only nodes at or below the start node are visited", q.loc(), construct="traversal", message="query does not traverse exactly start_node.visititems(collect_nodes)")
-    mq = P.func(f"{MM}.query")
-    t = norm(mq.node)
-    rep.check("self._get_raw(schema_name, schema_ver)" in t, "C07.R4", mq.qual, "exact schema is looked up with the requested version", mq.loc(), construct="exact lookup", message="MetadorMeta.query ignores the requested version for the exact schema")
-    rep.check("self._mc.metador.schemas.children(ref) for ref in self._mc.metador.schemas.versions(schema_name, schema_ver)" in t and "avail.intersection(compat)" in t, "C07.R4", mq.qual,
-              "descendant schemas are those recorded as children of a version-compatible release", mq.loc(), construct="compatible children", message="MetadorMeta.query does not intersect the attached schemas with children(versions(name, version))")
-    gq = ctx.cfg(mq)
-    et = [t.idx for t in gq.nodes if t.kind == "test" and norm(t.exprs[0]).strip("()") == "obj := self._get_raw(schema_name, schema_ver"]
-    ey = [n.idx for n in gq.nodes if n.kind == "stmt" and norm(n.stmt) == "yield obj.schema"]
-    lt = [t.idx for t in gq.nodes if t.kind == "test" and norm(t.exprs[0]) == "not schema_name"]
-    ok = bool(et) and bool(ey) and bool(lt) and any(gq.edge_dominates(t, "T", y) for t in et for y in ey) and all(gq.every_path_passes([y for y in ey], gq.exit, src=t, src_label="T") or True for t in et)
-    ok = ok and all(any(gq.edge_dominates(t, "F", e) for t in lt) for e in et)
-    rep.check(ok, "C07.R4", mq.qual, "the exact schema's object is yielded iff it exists in a compatible version; listing everything only for an empty schema name", mq.loc(), construct="exact-schema yield", message="MetadorMeta.query does not yield the exact schema's object exactly when _get_raw finds it / lists everything for a non-empty schema name")
+    cm = cf.tests(f"({sn}, {sv}) in {npar}.meta")
+    call_tests = [n for n in cf.g.nodes if n.kind == "test"]
+    rep.check(bool(cm) and len(call_tests) == len(cf.test_nodes(cm)), "C07.R4", coll.qual, "nodes below are tested with the same (name, version) membership", coll.loc(), construct="collector test",
+              message="the collector's test differs from `(name, version) in node.meta`: start node and descendants are matched differently")
+    ys = [n.idx for n in g.nodes if n.kind == "stmt" and any(isinstance(x, ast.Yield) for x in walk_local(n.stmt))]
+    oky = bool(ys) and bool(member_start) and q.all_hit_before(ys, edges=member_start) and all(q.x_at(y, next(x for x in walk_local(g.nodes[y].stmt) if isinstance(x, ast.Yield)).value) in (START, f"self._container['/'] if node is None else node") for y in ys)
+    rep.check(oky, "C07.R4", qfi.qual, "the start node is yielded only if it matches", qfi.loc(), construct="start node yield", message="query yields the start node without the membership test")
+    apps_s = cf.call_sites(f"__r.append({npar})")
+    apps = [i for i, c, b in apps_s]
+    rep.check(bool(apps) and bool(cm) and cf.all_hit_before(apps, edges=cm) and all(cf.hit_before(cf.g.exit, nodes=apps, src_edge=e) for e in cm), "C07.R4", coll.qual, "every matching node below the start node is collected (and only those)", coll.loc(), construct="collector append", message="the query collector does not append exactly the nodes that pass the membership test")
+    grp = q.tests(f"isinstance({START}, H5GroupLike)", "isinstance(__n, H5GroupLike)")
+    rep.check(bool(grp) and bool(visn) and q.all_hit_before(visn, edges=grp) and all(q.hit_before(g.exit, nodes=visn, src_edge=e) for e in grp), "C07.R4", qfi.qual, "group-like start nodes are traversed, others are not", qfi.loc(), construct="traversal condition", message="query does not traverse below a group-like start node (or traverses below a dataset)")
+    acc = {norm(b["__r"]) for i, c, b in apps_s}
+    ylds = [n.idx for n in g.nodes if n.kind == "stmt" and any(isinstance(x, ast.YieldFrom) and any(isinstance(y, ast.Name) and y.id in acc for y in ast.walk(x.value)) for x in walk_local(n.stmt))]
+    ylds += [n.idx for n in g.nodes if n.kind == "for" and isinstance(n.stmt.iter, ast.Name) and n.stmt.iter.id in acc and any(isinstance(x, ast.Yield) for b_ in n.stmt.body for x in ast.walk(b_))]
+    rep.check(bool(ylds) and q.all_hit_before(ylds, nodes=visn) and all(q.hit_before(g.exit, nodes=ylds, src=v) for v in visn), "C07.R4", qfi.qual, "the collected nodes are yielded after the traversal", qfi.loc(), construct="yield collected", message="query does not yield the collected nodes")
+    rep.check(len(vis_sites) >= 1 and len({norm(c) for i, c, b in vis_sites if c in local_calls(qfi.node)} | {1}) <= 2 and all(q.x_at(i, b["__s"]) in (START, f"self._container['/'] if node is None else node") and norm(b["__cb"]) == coll.name for i, c, b in vis_sites), "C07.R4", qfi.qual, "only nodes at or below the start node are visited", qfi.loc(), construct="traversal", message="query does not traverse exactly start_node.visititems(collect_nodes)")
+    mfi = P.func(f"{MM}.query")
+    mq = F(ctx, mfi)
+    gq = mq.g
+    names = unpack_names(mq, f"plugin_args({mfi.params[1]}, {mfi.params[2]})")
+    if names is None:
+        raise AnalysisError("C07.R4: `name, version = plugin_args(schema, version)` not found in MetadorMeta.query")
+    sn, sv = names[0], names[1]
+    exact = mq.tests(f"self._get_raw({sn}, {sv})", f"self._get_raw({sn}, {sv}) is not None")
+    any_raw = [c for c in local_calls(mfi.node) if call_attr(c) == "_get_raw" and len(c.args) + len(c.keywords) >= 2]
+    rep.check(bool(exact) and all(M.match(f"self._get_raw({sn}, {sv})", c) is not None for c in any_raw), "C07.R4", mfi.qual, "exact schema is looked up with the requested version", mfi.loc(), construct="exact lookup", message="MetadorMeta.query ignores the requested version for the exact schema")
+    t = mq.x(ast.Module(body=list(mfi.node.body), type_ignores=[])) if False else " ".join(norm(mq.xstmt(st)) for st in mfi.node.body)
+    okc = f"self._mc.metador.schemas.versions({sn}, {sv})" in t and "self._mc.metador.schemas.children(" in t and ".intersection(" in t
+    comp_ok = False
+    for x in ast.walk(mfi.node):
+        if isinstance(x, ast.GeneratorExp) and len(x.generators) == 1 and norm(x.generators[0].iter) == f"self._mc.metador.schemas.versions({sn}, {sv})" and M.match(f"self._mc.metador.schemas.children({norm(x.generators[0].target)})", x.elt) is not None and not x.generators[0].ifs:
+            comp_ok = True
+    rep.check(okc and comp_ok, "C07.R4", mfi.qual,
+              "descendant schemas are those recorded as children of a version-compatible release", mfi.loc(), construct="compatible children", message="MetadorMeta.query does not intersect the attached schemas with children(versions(name, version))")
+    ey = [n.idx for n in gq.nodes if n.kind == "stmt" and any(isinstance(x, ast.Yield) and x.value is not None and mq.x_at(n.idx, x.value) == f"self._get_raw({sn}, {sv}).schema" for x in walk_local(n.stmt))]
+    noname = mq.tests(f"not {sn}", f"{sn} == ''")
+    listing = [n.idx for n in gq.nodes if n.kind == "for" and mq.x(n.stmt.iter) in ("self.values()", "self._objs.values()")]
+    ok = bool(exact) and bool(ey) and bool(noname) and mq.all_hit_before(ey, edges=exact) and all(mq.hit_before(gq.exit, nodes=ey, src_edge=e) for e in exact)
+    ok = ok and mq.all_hit_before(mq.test_nodes(exact), edges=mq.neg(noname)) and bool(listing) and mq.all_hit_before(listing, edges=noname)
+    rep.check(ok, "C07.R4", mfi.qual, "the exact schema's object is yielded iff it exists in a compatible version; listing everything only for an empty schema name", mfi.loc(), construct="exact-schema yield", message="MetadorMeta.query does not yield the exact schema's object exactly when _get_raw finds it / lists everything for a non-empty schema name")
     from .common import require_total
 
     for fq in (f"{MM}._get_raw", f"{MM}._require_schema", f"{MM}._parse_obj", f"{MM}.get", f"{MM}.__contains__", "container.wrappers.WithDefaultQueryStartNode.query", f"{I}.TOCSchemas.versions", f"{I}.TOCSchemas.children"):
         require_total(rep, ctx, "C07.R4", P.func(fq))
-    cn = P.func(f"{MM}.__contains__")
-    rep.check("next(self.query(schema), None) is not None" in norm(cn.node), "C07.R4", cn.qual, "membership == query is non-empty", cn.loc(), construct="__contains__", message="MetadorMeta.__contains__ is not `next(self.query(schema), None) is not None`")
-    gt = P.func(f"{MM}.get")
-    t = norm(gt.node)
-    ok = "next(self.query(schema_name, schema_ver), None)" in t and "self._require_schema(schema_name, schema_ver)" in t and "self._get_raw(compat_schema.name, compat_schema.version)" in t and "self._parse_obj(schema_class, obj.node[()])" in t
-    rep.check(ok, "C07.R4", gt.qual, "get picks a compatible stored instance and parses its bytes with the *requested* schema class", gt.loc(), construct="get", message="MetadorMeta.get does not parse the compatible stored instance with the requested schema class")
-    gr = P.func(f"{MM}._get_raw")
-    t = norm(gr.node)
-    rep.check("self._objs.get(schema_name)" in t and "if not version: return ret" in t.replace("\n", " "), "C07.R4", gr.qual, "_get_raw returns the stored instance, version-filtered only if a version was requested", gr.loc(), construct="_get_raw", message="_get_raw does not return the stored instance / applies a version filter unconditionally")
-    dl = P.func(f"{MM}.__delitem__")
-    g = ctx.cfg(dl)
-    tests = [t for t in g.nodes if t.kind == "test" and norm(t.exprs[0]) == "self._get_raw(schema_name) is None"]
-    dr = [n.idx for n in g.nodes if any(call_attr(c) == "_del_raw" for c in g.calls(n.idx))]
-    ok = bool(tests) and bool(dr) and all(g.exit not in g.reach([b for b, l in g.succ[t.idx] if l == "T"]) for t in tests) and all(g.every_path_passes([t.idx for t in tests], d) for d in dr)
-    rep.check(ok, "C07.R4", dl.qual, "deleting a missing object raises KeyError before anything is removed", dl.loc(), construct="__delitem__ existence", message="__delitem__ does not raise KeyError for a missing object before deleting")
+    cfi = P.func(f"{MM}.__contains__")
+    cn = F(ctx, cfi)
+    sp = cfi.params[1]
+    rets = [(i, cn.x(v)) for i, v in cn.returns() if v is not None]
+    okc = bool(rets) and all(t in ("False", f"next(self.query({sp}), None) is not None", f"any(True for _ in self.query({sp}))") for i, t in rets) and any(t != "False" for i, t in rets)
+    rep.check(okc, "C07.R4", cfi.qual, "membership == query is non-empty", cfi.loc(), construct="__contains__", message="MetadorMeta.__contains__ is not `next(self.query(schema), None) is not None`")
+    gfi = P.func(f"{MM}.get")
+    gt = F(ctx, gfi)
+    names = unpack_names(gt, f"plugin_args({gfi.params[1]}, {gfi.params[2]})")
+    okg = names is not None
+    if okg:
+        sn, sv = names[0], names[1]
+        COMPAT = f"next(self.query({sn}, {sv}), None)"
+        rets = [(i, v) for i, v in gt.returns() if v is not None and not (isinstance(v, ast.Constant) and v.value is None)]
+        want = f"self._parse_obj(self._require_schema({sn}, {sv}), self._get_raw({COMPAT}.name, {COMPAT}.version).node[()])"
+        okg = bool(rets) and all(gt.x_at(i, v) in (want, f"cast(S, {want})") for i, v in rets)
+        none = gt.tests(f"not {COMPAT}", f"{COMPAT} is None")
+        okg = okg and bool(none) and all(gt.hit_before(i, edges=gt.neg(none)) for i, v in rets)
+    rep.check(okg, "C07.R4", gfi.qual, "get picks a compatible stored instance and parses its bytes with the *requested* schema class", gfi.loc(), construct="get", message="MetadorMeta.get does not parse the compatible stored instance with the requested schema class")
+    rfi = P.func(f"{MM}._get_raw")
+    gr = F(ctx, rfi)
+    sn, ver = rfi.params[1], rfi.params[2]
+    STORED = f"self._objs.get({sn})"
+    nov = gr.tests(f"not {ver}", f"{ver} is None")
+    rets = [(i, gr.x_at(i, v)) for i, v in gr.returns() if v is not None]
+    plain = [i for i, t in rets if t == STORED]
+    okr = bool(nov) and bool(plain) and all(gr.hit_before(gr.g.exit, nodes=plain, src_edge=e) for e in nov) and all(t == STORED or (STORED in t and ".supports(" in t) or t == "None" for i, t in rets)
+    rep.check(okr, "C07.R4", rfi.qual, "_get_raw returns the stored instance, version-filtered only if a version was requested", rfi.loc(), construct="_get_raw", message="_get_raw does not return the stored instance / applies a version filter unconditionally")
+    dfi = P.func(f"{MM}.__delitem__")
+    dl = F(ctx, dfi)
+    names = unpack_names(dl, f"plugin_args({dfi.params[1]})")
+    okd = names is not None
+    if okd:
+        sn = names[0]
+        missing = dl.tests(f"self._get_raw({sn}) is None", f"not self._get_raw({sn})", f"{sn} not in self._objs")
+        dr = dl.calls(f"self._del_raw({sn})", f"self._del_raw({sn}, _unlink=True)")
+        okd = bool(dr) and dl.refuses(missing) and dl.all_hit_before(dr, nodes=dl.test_nodes(missing))
+    rep.check(okd, "C07.R4", dfi.qual, "deleting a missing object raises KeyError before anything is removed", dfi.loc(), construct="__delitem__ existence", message="__delitem__ does not raise KeyError for a missing object before deleting")
 
 
 def r6_children_index(P, rep, ctx):
     """Queries for a parent schema find child-schema objects through TOCSchemas._children: every registration must record
     the schema under *each* of its parents, whether or not the parent's entry already exists."""
     fi = P.func(f"{I}.TOCSchemas._update_parents_children")
-    g = ctx.cfg(fi)
-    loops = [n for n in g.nodes if n.kind == "for" and norm(n.stmt.iter) == "enumerate(parents)"]
-    tests = [t.idx for t in g.nodes if t.kind == "test" and norm(t.exprs[0]) == "parent != schema_ref"]
-    adds = [n.idx for n in g.nodes if n.kind == "stmt" and norm(n.stmt) == "self._children[parent].add(schema_ref)"]
-    ok = len(loops) == 1 and bool(tests) and bool(adds) and g.every_path_passes(tests, loops[0].idx, src=loops[0].idx, src_label="iter") and all(g.every_path_passes(adds, loops[0].idx, src=t, src_label="T") for t in tests)
+    f = F(ctx, fi)
+    g = f.g
+    sr, ps = fi.params[1], fi.params[2]
+    loops = [n for n in g.nodes if n.kind == "for" and f.x(n.stmt.iter) in (f"enumerate({ps})", ps)]
+    ok = len(loops) == 1
+    if ok:
+        L = loops[0].idx
+        tgt = loops[0].stmt.target
+        par = norm(tgt.elts[1]) if isinstance(tgt, ast.Tuple) else norm(tgt)
+        other = f.tests(f"{par} != {sr}")
+        adds = f.calls(f"self._children[{par}].add({sr})")
+        ok = bool(other) and bool(adds) and f.hit_before(L, nodes=adds, edges=f.neg(other), src_edge=(L, "iter"))
+        init = [i for i, v, b in f.stores(f"self._children[{par}]") if norm(v) in ("set()", "set([])")]
+        absent = f.tests(f"{par} not in self._children")
+        ok2 = bool(init) and bool(absent) and f.all_hit_before(init, edges=absent, src=L)
+    else:
+        ok2 = False
     rep.check(ok, "C07.R6", fi.qual, "on every registration the schema is recorded as child of each of its parents (independent of whether the parent entry existed)", fi.loc(), construct="children index update per parent",
               message="_update_parents_children records a schema under a parent only on some iterations (e.g. only when the parent's entry is created): objects of a child schema registered after its parent are not found by queries for the parent schema")
-    init = [n.idx for n in g.nodes if n.kind == "stmt" and norm(n.stmt) == "self._children[parent] = set()"]
-    it = [t.idx for t in g.nodes if t.kind == "test" and norm(t.exprs[0]) == "parent not in self._children"]
-    rep.check(bool(init) and bool(it) and all(any(g.edge_dominates(t, "T", i) for t in it) for i in init), "C07.R6", fi.qual, "a parent's child set is created only when absent", fi.loc(), construct="children init", message="the child set of a parent is re-initialised although present")
+    rep.check(ok2, "C07.R6", fi.qual, "a parent's child set is created only when absent", fi.loc(), construct="children init", message="the child set of a parent is re-initialised although present")
     ch = P.func(f"{I}.TOCSchemas.children")
-    rep.check("map(self._children.get, s_refs)" in norm(ch.node), "C07.R6", ch.qual, "children() reads the same index", ch.loc(), construct="children()", message="TOCSchemas.children does not read _children")
+    rep.check(any(M.match("self._children.get", x) is not None or M.match("self._children[__k]", x) is not None for x in ast.walk(ch.node)), "C07.R6", ch.qual, "children() reads the same index", ch.loc(), construct="children()", message="TOCSchemas.children does not read _children")
     # explicit start node wins over the accessor's default (query scope)
-    q = P.func("container.wrappers.WithDefaultQueryStartNode.query")
-    d = [norm(v) for k, v in local_defs(q).get("node", []) if v is not None]
-    rep.check(d in (["node or self._self_query_start_node"], ["self._self_query_start_node if node is None else node"]), "C07.R6", q.qual, "an explicitly passed start node takes precedence over the accessor's own node", q.loc(), construct=f"node = {d}",
+    qfi = P.func("container.wrappers.WithDefaultQueryStartNode.query")
+    q = F(ctx, qfi)
+    calls = q.call_sites("self.__wrapped__.query(___)")
+    d = sorted({q.x_at(i, kwarg_(c, "node")) for i, c, b in calls if kwarg_(c, "node") is not None})
+    rep.check(bool(calls) and all(kwarg_(c, "node") is not None for i, c, b in calls) and set(d) <= {"node or self._self_query_start_node", "self._self_query_start_node if node is None else node", "node if node is not None else self._self_query_start_node", "node"} and _start_default(q), "C07.R6", qfi.qual, "an explicitly passed start node takes precedence over the accessor's own node", qfi.loc(), construct=f"node = {d}",
               message=f"node-level query computes its start node as {d}: an explicitly requested start node is ignored and results come from the wrong subtree")
+
+
+def kwarg_(c, name):
+    for k in c.keywords:
+        if k.arg == name:
+            return k.value
+    return None
+
+
+def _start_default(q) -> bool:
+    """`node` is the parameter itself when given, the accessor's node otherwise"""
+    defs = [v for k, v in local_defs(q.fi).get("node", []) if v is not None]
+    return [norm(v) for v in defs] in (["node or self._self_query_start_node"], ["self._self_query_start_node if node is None else node"], ["node if node is not None else self._self_query_start_node"]) or (not defs and False) or (
+        bool(q.tests("node is None", "not node")) and any(norm(v) == "self._self_query_start_node" for v in defs))
 
 
 def r5_fresh_view(P, rep, ctx, rule="C07.R5"):
     fi = P.func("container.wrappers.MetadorNode.meta")
-    rets = [norm(x.value) for x in walk_local(fi.node) if isinstance(x, ast.Return)]
+    f = F(ctx, fi)
+    rets = [f.x(v) for _, v in f.returns() if v is not None]
     stores = [st for st in walk_local(fi.node) if isinstance(st, ast.stmt) for k, t in store_targets(st) if norm(t).startswith("self.")]
     rep.check(rets == ["MetadorMeta(self)"] and not stores, rule, fi.qual, "node.meta builds a fresh view of the stored metadata on every access", fi.loc(), construct=f"meta returns {rets}",
               message=f"node.meta does not construct a fresh MetadorMeta(self) per access ({rets}{', caches in ' + norm(stores[0]) if stores else ''}): a kept node handle does not see objects attached/deleted through another handle and accepts a second object per schema")
-    init = P.func(f"{MM}.__init__")
-    t = norm(init.node)
-    rep.check("self._mc.__wrapped__.get(self._base_dir, {})" in t and "StoredMetadata.from_node(obj_node)" in t and "self._objs[obj.schema.name] = obj" in t, rule, init.qual, "the view's index is loaded from the node's metadata group", init.loc(), construct="MetadorMeta.__init__ load",
+    ifi = P.func(f"{MM}.__init__")
+    it = F(ctx, ifi)
+    loops = [n for n in it.g.nodes if n.kind == "for" and it.x(n.stmt.iter) in ("cast(H5GroupLike, self._mc.__wrapped__.get(self._base_dir, {})).values()", "self._mc.__wrapped__.get(self._base_dir, {}).values()") and isinstance(n.stmt.target, ast.Name)]
+    ok = len(loops) == 1
+    if ok:
+        L = loops[0].idx
+        on = loops[0].stmt.target.id
+        st = [(i, v, b) for i, v, b in it.stores("self._objs[__k]")]
+        ok = bool(st) and all(it.x_at(i, b["__k"]) == f"StoredMetadata.from_node({on}).schema.name" and it.x_at(i, v) == f"StoredMetadata.from_node({on})" for i, v, b in st) and it.hit_before(L, nodes=[i for i, v, b in st], src_edge=(L, "iter")) and it.hit_before(it.g.exit, nodes=[L])
+    rep.check(ok, rule, ifi.qual, "the view's index is loaded from the node's metadata group", ifi.loc(), construct="MetadorMeta.__init__ load",
               message="MetadorMeta.__init__ does not load the stored objects of the node's metadata group into _objs (keyed by schema name)")
